@@ -18,6 +18,10 @@ Oracle clauses (violation key = C01:<clause>:...):
   equal         decoded object != original (library __eq__), or public fields differ
                 (key: kind + entry point, or kind + first component of the differing field)
   reencode      decoded object does not pack to the same bytes
+  used          an object that was len()'d / compared / shown / hashed encodes differently, cannot be
+                encoded (module logger installed), or its clone is wrong / not independent
+  reused        an object that was encoded before and then unpack()s other bytes / has its public
+                fields assigned does not end up == a fresh object, or encodes stale bytes
 A case stops at the first length/layout failure (decoding a wrong encoding proves nothing); a
 decode clause that failed through one entry point is not reported again for the next one.
 Exceptions without any pox frame are harness errors, never violations.
@@ -55,6 +59,11 @@ def pox ():
   P.of, P.nx, P.ofutil = of, nx, ofutil
   P.EthAddr, P.IPAddr, P.IPAddr6 = addr.EthAddr, addr.IPAddr, addr.IPAddr6
   P.unpackers = ofutil.make_type_to_unpacker_table()
+  # libopenflow's module logger as of_01.launch() installs it (only switched on for the
+  # "used object" phase; logging itself stays disabled, the code path behind it does not)
+  P.logger = logging.getLogger("c01.libopenflow")
+  P.logger.addHandler(logging.NullHandler())
+  P.logger.propagate = False
   P.src = os.path.realpath(os.environ.get("POX_SRC", "/repo"))
   _P = P
   return P
@@ -182,7 +191,7 @@ def exc_site (P, e):
     if q not in GENERIC_FRAMES and not q.endswith('.genexpr'):
       return "%s:%s:%s" % (f, q, type(e).__name__), True
   f, q = frames[-1]
-  return "%s:%s:%s" % (f, q, type(e).__name__), True
+  return "%s:%s:%s@" % (f, q, type(e).__name__), True
 
 _VIEW_PROPS = ('xid', 'buffer_id', 'data', 'total_len', 'body', 'match')
 
@@ -341,12 +350,13 @@ def decoders (P, K, n):
   raise ValueError(cat)
 
 
-def run_case (P, K, v):
+def run_case (P, K, v, state=True):
   V = Verdict()
   own = K.opts.get('owner', K.name.split('/')[0])
   def raised (phase, e):
     site, inpox = exc_site(P, e)
     if not inpox: raise e
+    if site.endswith('@'): site += own      # raised in a shared helper: name the kind
     V.fail("raises:" + site, "%s of %s raised %s: %s" % (phase, K.name, type(e).__name__, str(e)[:120]))
   # -- construct ----------------------------------------------------------------------
   try:
@@ -356,6 +366,7 @@ def run_case (P, K, v):
   except Exception as e:
     site, inpox = exc_site(P, e)
     if not inpox: raise
+    if site.endswith('@'): site += own
     if K.cat in ('nxm', 'nxmatch'):
       # an NXM entry encodes its value and mask when they are assigned: this is the codec
       V.fail("raises:" + site, "constructing %s raised %s: %s" % (K.name, type(e).__name__, str(e)[:120]))
@@ -446,11 +457,201 @@ def run_case (P, K, v):
         V.calls += 1; b2 = o2.pack()
       except Exception as e:
         raised("re-encode after decode via %s" % label, e); break
-      if b2 != b:
+      if b2 != b and flags.get('reencode', True):
         i = next((j for j in range(min(len(b), len(b2))) if b[j] != b2[j]), min(len(b), len(b2)))
         dfail("reencode", "reencode:%s:%s" % (own, label), "%s: re-encoding the object decoded via %s%s differs from the original bytes at offset %d"
                % (K.name, label, emb, i)); break
+  if state and not V.fails and not K.opts.get('noreuse'):
+    state_phases(P, K, v, obj, b, exp, flags, V, raised, ov)
   return V
+
+
+# ---------------------------------------------------------------------------------------
+# objects that are not in their initial state
+#   used     an object (and everything it owns) that was hashed / compared / len()'d / shown /
+#            cloned before it is encoded, with libopenflow's module logger installed
+#   reused   an object that was already encoded once and is then the target of unpack() of
+#            another encoding, or has its public fields assigned, and is encoded again
+# ---------------------------------------------------------------------------------------
+_REF = {}
+
+def ref_of (P, K):
+  """(vector, object, bytes, flags) of the kind's reference (base) vector, or None"""
+  if K.name not in _REF:
+    r = None
+    rv = K.opts.get('refv')
+    if rv is None and K.fields: rv = K.basev()
+    if rv is not None:
+      try:
+        t = K.build(P, rv)
+        r = (rv, t[0], t[0].pack(), t[2] if len(t) > 2 else {})
+      except Exception:
+        r = None
+    _REF[K.name] = r
+  return _REF[K.name]
+
+def unpack_into (K, x, raw):
+  """decode `raw` into the existing object x through its instance unpack(); -> consumed"""
+  if K.cat in ('msg', 'msg1', 'nxmsg'): return x.unpack(raw, 0)[0]
+  if K.cat in ('action', 'nxaction', 'struct', 'qprop'): return x.unpack(raw, 0)
+  if K.cat in ('stats', 'nxmatch'): return x.unpack(raw, 0, len(raw))
+  return None
+
+def assign_from (P, x, src):
+  """what a caller does who sets every public field of x to that of src"""
+  if isinstance(x, P.of.ofp_match):
+    for f in S.MATCH_FIELDS:
+      if f in ('nw_src', 'nw_dst'):
+        ip, bits = getattr(src, 'get_' + f)()
+        setattr(x, f, None if ip is None else (ip, bits))
+      else:
+        setattr(x, f, getattr(src, f))
+    return True
+  names = [k for k in vars(src) if not k.startswith('_')]
+  for p in _VIEW_PROPS:
+    pr = getattr(type(src), p, None)
+    if isinstance(pr, property) and pr.fset is not None: names.append(p)
+  for k in names: setattr(x, k, getattr(src, k))
+  return bool(names)
+
+def owned (P, x, depth=0):
+  """x and every codec object it owns (matches, actions, ports, queues, bodies, entries)"""
+  out = [x]
+  if depth > 3: return out
+  d = getattr(x, '__dict__', {})
+  vals = list(d.values())
+  for p in ('body', 'match'):
+    if isinstance(getattr(type(x), p, None), property):
+      try: vals.append(getattr(x, p))
+      except Exception: pass
+  for val in vals:
+    ys = val if isinstance(val, (list, tuple)) else [val]
+    for y in ys[:8]:
+      if isinstance(y, (P.of.ofp_base, P.nx.nxm_entry, P.nx.nx_match)) and not any(y is z for z in out):
+        out.extend(z for z in owned(P, y, depth + 1) if not any(z is w for w in out))
+  return out
+
+def use (P, y):
+  """read-only use of an object; what these calls return or raise is not the codec's business"""
+  n = 0
+  for f in (len, lambda o: o == o, lambda o: o != o, lambda o: o.show(),
+            lambda o: hash(o) if type(o).__hash__ is not None else None):
+    try: f(y); n += 1
+    except Exception: pass
+  return n
+
+CLONE_CATS = ('msg', 'msg1', 'nxmsg', 'action', 'nxaction', 'nxm', 'nxmatch')
+
+def state_phases (P, K, v, obj, b, exp, flags, V, raised, ov=None):
+  own = K.opts.get('owner', K.name.split('/')[0])
+  n = len(b)
+  strict_eq = flags.get('eq', True) and K.opts.get('eq', True)
+  def where (actual):
+    # name the structure that owns the first stale / wrong field
+    if exp is not None:
+      d = layout_diff(exp, actual, flags.get('dont_care', 0))
+      if d is not None: return layout_owner(K, d[0])[0], d[0]
+    return own, '?'
+  # ---- used --------------------------------------------------------------------------
+  try:
+    xu = K.build(P, v)[0]
+  except Exception:
+    xu = None
+  if xu is not None:
+    P.of._logger = P.logger
+    try:
+      for y in owned(P, xu): V.calls += use(P, y)
+      try:
+        V.calls += 1; bu = xu.pack()
+      except Exception as e:
+        raised("pack() of a used (hashed / compared / shown) object, module logger installed,", e); return
+      if bu != b:
+        o, f = where(bu)
+        V.fail("used:%s:pack" % o, "%s: after the object was hashed / compared / shown its encoding differs from a fresh object's (field %s)" % (K.name, f)); return
+      try:
+        if len(xu) != n: V.fail("used:%s:len" % own, "%s: len() of the used object is %d, %d bytes" % (K.name, len(xu), n)); return
+      except Exception as e:
+        raised("len() of a used object", e); return
+      if isinstance(xu, P.of.ofp_match):
+        try:
+          V.calls += 1; xu.pack(flow_mod=True)
+        except Exception as e:
+          raised("pack(flow_mod=True) of a used match, module logger installed,", e); return
+      if K.cat in CLONE_CATS or isinstance(xu, P.of.ofp_match):
+        try:
+          V.calls += 2; c = xu.clone(); bc = c.pack()
+        except Exception as e:
+          raised("clone() of a used object", e); return
+        if bc != b:
+          V.fail("used:%s:clone" % own, "%s: the clone of a used object encodes differently" % K.name); return
+        if strict_eq and flags.get('libeq', True) and not (c == xu):
+          V.fail("used:%s:clone" % own, "%s: the clone of a used object is not == it" % K.name); return
+        if isinstance(c, P.of.ofp_match):
+          # a clone is an independent object: it can be narrowed / fixed
+          try: c.fix(); c.in_port = 1
+          except Exception as e:
+            raised("modifying the clone of a used match", e); return
+    finally:
+      P.of._logger = None
+  # ---- reused ------------------------------------------------------------------------
+  ref = ref_of(P, K)
+  if ref is None or K.cat == 'nxm': return
+  rv, robj, rb, rflags = ref
+  try:
+    xa = K.build(P, rv)[0]; xa.pack(); V.calls += 2
+  except Exception:
+    return
+  # A: unpack this case's bytes into an object that already encoded the reference vector
+  try:
+    V.calls += 1; used = unpack_into(K, xa, b)
+  except Exception as e:
+    raised("unpack() into an object that was encoded before", e); return
+  if used != n:
+    V.fail("reused:%s:consumed" % own, "%s: unpack() into an already encoded object consumed %s of %d bytes" % (K.name, used, n)); return
+  try:
+    V.calls += 3
+    if strict_eq:
+      if ov is None: ov = view(P, obj)
+      if flags.get('libeq', True) and not (xa == obj):
+        V.fail("reused:%s:equal-after-unpack" % own, "%s: an already encoded object that unpack()ed these bytes is not == a fresh object (first differing public field: %s)"
+               % (K.name, view_diff(ov, view(P, xa)))); return
+      if flags.get('view', True):
+        vd = view_diff(ov, view(P, xa))
+        if vd:
+          V.fail("reused:%s:equal-after-unpack" % own, "%s: an already encoded object that unpack()ed these bytes differs from a fresh object in public field %s" % (K.name, vd)); return
+    ba = xa.pack()
+    la = len(xa)
+  except Exception as e:
+    raised("==/pack()/len() after unpack() into an already encoded object", e); return
+  if ba != b and flags.get('reencode', True):
+    o, f = where(ba)
+    V.fail("reused:%s:pack-after-unpack" % o, "%s: an object that was encoded, then unpack()ed other bytes, encodes stale/wrong bytes (field %s)" % (K.name, f)); return
+  if la != n:
+    V.fail("reused:%s:len-after-unpack" % own, "%s: len() is %d after unpack() of %d bytes into an already encoded object" % (K.name, la, n)); return
+  # C: assign every public field of the reference object onto xa (now encoded twice)
+  try:
+    V.calls += 2
+    if assign_from(P, xa, robj):
+      bc = xa.pack(); lc = len(xa)
+      if bc != rb:
+        V.fail("reused:%s:pack-after-assign" % own, "%s: after it was encoded, assigning the public fields of another object does not change the encoding accordingly" % K.name); return
+      if lc != len(rb):
+        V.fail("reused:%s:len-after-assign" % own, "%s: len() is %d after assigning fields that encode to %d bytes" % (K.name, lc, len(rb))); return
+  except Exception as e:
+    raised("assigning public fields / pack() of an already encoded object", e); return
+  # B: unpack the reference bytes into this case's object (encoded, decoded against, compared)
+  try:
+    V.calls += 3
+    used = unpack_into(K, obj, rb)
+    if used != len(rb):
+      V.fail("reused:%s:consumed" % own, "%s: unpack() of the reference encoding into the used object consumed %s of %d bytes" % (K.name, used, len(rb))); return
+    bb = obj.pack()
+    if bb != rb and rflags.get('reencode', True):
+      V.fail("reused:%s:pack-after-unpack" % own, "%s: the case's object, after unpack() of the reference encoding, encodes other bytes" % K.name); return
+    if rflags.get('eq', True) and K.opts.get('eq', True) and rflags.get('libeq', True) and not (obj == robj):
+      V.fail("reused:%s:equal-after-unpack" % own, "%s: the case's object, after unpack() of the reference encoding, is not == the reference object" % K.name); return
+  except Exception as e:
+    raised("unpack()/pack()/== of the reference encoding on the case's object", e); return
 
 
 # ---------------------------------------------------------------------------------------
@@ -632,6 +833,26 @@ def match_variants ():
 
 _MV = match_variants()
 MATCH = ('enum', _MV[0], _MV[1:])
+KINDS['ofp_match'].opts['refv'] = dict(m=_MV[0])
+
+def inconsistent_matches ():
+  """Matches naming fields whose prerequisite is absent (the library warns and ignores them):
+  the only claim made for these is that encoding does not fail and the lengths agree."""
+  fb = base_vector(M_FREE)
+  allf = M_CTX[0][3]
+  out = []
+  for dl, pr in ((None, None), (None, 6), (0x88cc, None), (0x88cc, 6), (0, 17), (0x0806, 1), (0x0806, None),
+                 (0x0800, None), (0x0800, 0x59), (0x0800, 0)):
+    out.append(m_from_flat(dl, pr, allf, fb))
+    for keep in ('nw_tos', 'nw_src', 'nw_dst', 'tp_src', 'tp_dst'):
+      out.append(m_from_flat(dl, pr, M_L2 + (keep,), fb))
+  res = []
+  for m in out:
+    d = {}
+    for f, x in m.items():
+      d[f] = tuple(x) if f in ('nw_src', 'nw_dst') else x
+    if not S.match_prereq_consistent(d) and m not in res: res.append(m)
+  return res
 
 def match_pair (P, m, flow_mod=False):
   d = sp_match(m)
@@ -1105,6 +1326,16 @@ def _b_flow_mod (P, v):
   return o, exp, dict(eq=strict, dont_care=dc)
 Kind('ofp_flow_mod', 'msg', HDR + [('match', MATCH)] + FMOD + [('actions', ACTS)], _b_flow_mod, ofcls('ofp_flow_mod'))
 
+def _b_flow_mod_inconsistent (P, v):
+  m = mk_match(P, v['match'])
+  acts, aexp, strict = sublist(P, v['actions'], 'actions')
+  kw = hkw(v); kw.update((f, v[f]) for f, t in FMOD); kw.update(match=m, actions=acts)
+  # no layout / equality / re-encoding claim: ignored fields are dropped by design
+  return P.of.ofp_flow_mod(**kw), None, dict(eq=False, reencode=False)
+_IM = inconsistent_matches()
+Kind('ofp_flow_mod/inconsistent-match', 'msg', HDR + [('match', ('enum', _IM[0], _IM[1:]))] + FMOD + [('actions', ACTS)],
+     _b_flow_mod_inconsistent, ofcls('ofp_flow_mod'), owner='ofp_flow_mod/inconsistent-match')
+
 def _b_qgc_reply (P, v):
   qs, qexp, _ = sublist(P, v['queues'], 'queues')
   o = P.of.ofp_queue_get_config_reply(port=v['port'], queues=qs, **hkw(v))
@@ -1255,7 +1486,7 @@ def _b_req_reassigned (P, v):
                      S.prefixed('body:%s.' % v['second'][0], bexp()))
   return o, exp
 Kind('ofp_stats_request/body-reassigned', 'msg', HDR + [('flags', 'u16')], _b_req_reassigned, ofcls('ofp_stats_request'),
-     owner='ofp_stats_request/body-reassigned', owner_fixed=True)
+     owner='ofp_stats_request/body-reassigned', owner_fixed=True, noreuse=True)
 
 def _b_reply_appended (P, v):
   bodies, bexp, strict = sublist(P, v['entries'], 'body')
@@ -1268,7 +1499,7 @@ def _b_reply_appended (P, v):
                                              flags=v['flags']), bexp())
   return o, exp
 Kind('ofp_stats_reply/body-appended', 'msg', HDR + [('flags', 'u16')], _b_reply_appended, ofcls('ofp_stats_reply'),
-     owner='ofp_stats_reply/body-appended', owner_fixed=True)
+     owner='ofp_stats_reply/body-appended', owner_fixed=True, noreuse=True)
 
 def mutation_cases ():
   out = []
@@ -1331,6 +1562,7 @@ Kind('ofp_flow_mod_table_id', 'msg1', HDR + [('table_id', 'u8'), ('match', MATCH
      _b_flow_mod_tid, nxcls('ofp_flow_mod_table_id'))
 
 _NML = nxmatch_lists(2)
+KINDS['nx_match'].opts['refv'] = dict(parts=_NML[12])
 NXMATCH = ('enum', _NML[1 + 10 + 1], [_NML[0], _NML[1], _NML[4], _NML[30]])
 NXFM = [('table_id', 'u8')] + FMOD8
 def _b_nx_flow_mod (P, v):
@@ -1459,6 +1691,15 @@ def sweeps (thorough):
   return out
 
 
+def state_stride (sname, thorough):
+  """the used / reused object phases run on every n-th case of a sweep (all of them except in
+  the two highly redundant sweep families of the quick tier)"""
+  if thorough: return 1
+  if sname.startswith('payload'): return 4
+  if sname == 'match-lattice-k0': return 4
+  return 1
+
+
 def _work (item):
   si, sl, nsl, thorough, only = item
   P = pox()
@@ -1472,7 +1713,8 @@ def _work (item):
       if kname is None: kn, v = x
       else: kn, v = kname, x
       K = KINDS[kn]
-      V = run_case(P, K, v)
+      st = (j % state_stride(sname, thorough)) == 0
+      V = run_case(P, K, v, st)
       rep.evaluations += 1
       rep.transitions += V.calls
       if V.note and V.note.startswith('out-of-scope'):
@@ -1483,7 +1725,7 @@ def _work (item):
       raw = V.raw or b''
       rep.outcome((kn, tuple(f[0] for f in V.fails), V.note, len(raw), zlib.crc32(raw) & 0xff))
       for suffix, text in V.fails:
-        rep.violation("%s:%s" % (PID, suffix), text, dict(kind=kn, v=v, sweep=sname))
+        rep.violation("%s:%s" % (PID, suffix), text, dict(kind=kn, v=v, sweep=sname, state=st))
       if j == 0 and not V.fails and V.raw is not None and len(raw) <= 128 and sname.startswith(('lattice', 'nxm', 'match-lattice')):
         rep.sample(dict(kind=kn, sweep=sname, vector=v, bytes=raw.hex(), verdict=V.note or 'held'))
   except Exception:
@@ -1533,7 +1775,16 @@ def run (cfg):
               "nx_match lists and learn specs to the same length bound. Each case: len/pack, byte-for-byte comparison "
               "with the specification layout table (mc/refs/ofspec.py), decode through every entry point (unpack_new, "
               "dispatch table, list decoders), alone and embedded at a non-zero offset with trailing bytes, ==, public "
-              "field comparison, re-encode. distinct = (kind, verdict, length, 8-bit checksum) digests"
+              "field comparison, re-encode. (8) non-initial object state, on every case (every 4th of the payload and "
+              "container match-context sweeps in the quick tier): USED - a fresh object and everything it owns is "
+              "len()'d, compared, shown and hashed (ofp_match, ofp_phy_port), then encoded with libopenflow's module "
+              "logger installed (prerequisite check path), cloned, the clone encoded and modified; REUSED - an object "
+              "that already encoded the kind's reference vector is the target of unpack() of this case's bytes (must "
+              "== a fresh object, re-encode to the same bytes, len agrees), then has every public field of the "
+              "reference object assigned (must encode the reference bytes), and the case's own object unpack()s the "
+              "reference bytes; plus flow-mods with prerequisite-inconsistent matches, for which only 'encoding does "
+              "not fail, lengths agree, decode consumes all' is claimed. distinct = (kind, verdict, length, 8-bit "
+              "checksum) digests"
               % (len(KINDS), len([k for k in KINDS if k.startswith('nx')]),
                  "2" if cfg.quick else "3", 3 if thorough else 2, 3 if thorough else 2))
   rep.bound = dict(deviations=2 if cfg.quick else 3, payload="0..1500", action_seq_len=3 if thorough else 2,
@@ -1554,7 +1805,7 @@ def run (cfg):
 def replay (cfg, data):
   P = pox()
   K = KINDS[data["kind"]]
-  V = run_case(P, K, data["v"])
+  V = run_case(P, K, data["v"], data.get("state", True))
   lines = ["kind: %s" % K.name, "vector: %r" % (data["v"],)]
   if V.note: lines.append("note: %s" % V.note)
   if V.raw is not None:
